@@ -62,6 +62,35 @@ extern "C" {
     fn Dr_destroy(this: Box<ffi::Dr>);
 }
 
+/// Results and options whose two arms differ in whether they own anything: only one arm has drop glue. Whatever the
+/// state, dropping or converting the value releases exactly the payload it holds, once.
+fn asymmetric_payload_probe(rep: &mut Report) {
+    fn run(name: &str, expect: usize, f: impl FnOnce(), rep: &mut Report) {
+        LOG.lock().unwrap().clear();
+        f();
+        let log = LOG.lock().unwrap().clone();
+        rep.oracle_runs += 1;
+        rep.count("probe:asymmetric-payloads");
+        let mut uniq = log.clone();
+        uniq.sort();
+        uniq.dedup();
+        if log.len() != expect || uniq.len() != log.len() {
+            rep.oracle_fail(&format!("(c03 probe {name})"), "a payload held by a runtime result/option type is not released exactly once", json!({"expected_drops": expect, "drop_log": log}));
+        }
+    }
+    run("drop DiplomatResult<u32, D> holding Err", 1, || { let r: DiplomatResult<u32, D> = Err::<u32, D>(D::fresh()).into(); drop(r); }, rep);
+    run("drop DiplomatResult<u32, D> holding Ok", 0, || { let r: DiplomatResult<u32, D> = Ok::<u32, D>(7).into(); drop(r); }, rep);
+    run("drop DiplomatResult<D, u32> holding Ok", 1, || { let r: DiplomatResult<D, u32> = Ok::<D, u32>(D::fresh()).into(); drop(r); }, rep);
+    run("drop DiplomatResult<D, u32> holding Err", 0, || { let r: DiplomatResult<D, u32> = Err::<D, u32>(7).into(); drop(r); }, rep);
+    run("drop DiplomatResult<(), D> holding Err", 1, || { let r: DiplomatResult<(), D> = Err::<(), D>(D::fresh()).into(); drop(r); }, rep);
+    run("drop DiplomatResult<D, ()> holding Ok", 1, || { let r: DiplomatResult<D, ()> = Ok::<D, ()>(D::fresh()).into(); drop(r); }, rep);
+    run("drop DiplomatResult<Box<D>, D> holding Err", 1, || { let r: DiplomatResult<Box<D>, D> = Err::<Box<D>, D>(D::fresh()).into(); drop(r); }, rep);
+    run("drop DiplomatOption<D> holding Some", 1, || { let r: DiplomatOption<D> = Some(D::fresh()).into(); drop(r); }, rep);
+    run("convert DiplomatResult<u32, D> holding Err, then drop", 1, || { let r: DiplomatResult<u32, D> = Err::<u32, D>(D::fresh()).into(); let s: Result<u32, D> = r.into(); drop(s); }, rep);
+    run("convert DiplomatResult<D, u32> holding Ok, then drop", 1, || { let r: DiplomatResult<D, u32> = Ok::<D, u32>(D::fresh()).into(); let s: Result<D, u32> = r.into(); drop(s); }, rep);
+    run("clone DiplomatResult<u32, D> holding Err, drop both", 2, || { let r: DiplomatResult<u32, D> = Err::<u32, D>(D::fresh()).into(); let c = r.clone(); drop(r); drop(c); }, rep);
+}
+
 enum Obj {
     DipRes(DiplomatResult<D, D>),
     StdRes(Result<D, D>),
@@ -336,5 +365,6 @@ pub fn main(args: &[String]) {
     }
     // the C++ wrapper layer: a callback that Rust stores and calls after the setter returned (under ASan)
     crate::c02::special_methods_probe(&mut rep);
+    asymmetric_payload_probe(&mut rep);
     rep.print();
 }
